@@ -254,6 +254,7 @@ func (fr *faultRun) commitFaulty() bool {
 			w.failed = false
 			w.violate("lock-leak", fmt.Sprintf("lock-leak:after-failed-remap:shared=%d,pending=%v,reservedFree=%v", shared, pending, resFree),
 				"after a commit whose final mmap/truncate failed, beginning and ending transactions left the lock state shared=%d pending=%v reservedFree=%v", shared, pending, resFree)
+			w.F = nil // File.Close would wait forever for the leaked lock
 			return false
 		}
 		if !w.guard("File.Close(after a failed remap)", func() { cerr = f.Close() }) {
